@@ -536,9 +536,15 @@ class ImplWorld:
             if isinstance(v, dict) and 'list' in v:
                 return list(v['list'])
             return v
-        args = []
+        args, made = [], {}
         for kind, x in form[0]:
-            args.append(x if kind == 'name' else Event(x['ev'], **{k: dec(v) for k, v in x['data']}))
+            if kind == 'name':
+                args.append(x)
+                continue
+            key = json.dumps(x, sort_keys=True)
+            if key not in made:         # (the same event twice in one call is the same object twice)
+                made[key] = Event(x['ev'], **{k: dec(v) for k, v in x['data']})
+            args.append(made[key])
         self.slots[i].queue(*args, **{k: dec(v) for k, v in form[1]})
         return None
 
@@ -692,7 +698,9 @@ class ImplWorld:
 
     def op_attach(self, i, k):
         cb = self._cb(k)
-        l = cb.append
+        if not hasattr(self, '_attach_fn'):
+            self._attach_fn = {}
+        l = self._attach_fn.setdefault(k, cb.append)      # (attached twice, it is the same object twice)
         self.slots[i].attach(l)
         return self._add_listener(i, ('attach', k), l)
 
